@@ -239,6 +239,7 @@ class Exec:
         if sv.ty.kind == 'ref': return sv.t != 0
         raise Unsupported(f'truth of {sv.ty}')
     def truth_st(s, st, sv):
+        if getattr(sv, 'truth', None) is None and sv.ty.kind == 'list': return s.llen(st.heap, sv) > 0       # never the length at the time the value was bound
         if getattr(sv, 'truth', None) is None and sv.ty.kind == 'ref' and sv.ty.arg in s.p.classes:
             for dn in ('__bool__', '__len__'):
                 c_, m_ = s.p.method(sv.ty.arg, dn)
@@ -350,7 +351,7 @@ class Exec:
         if getattr(s, 'specmode', False):
             vs = [s.ev(st, v) for v in e.values]
             if all(v.t.sort() == B for v in vs if not isinstance(v.t, tuple)):
-                ts = [s.truth(v) for v in vs]
+                ts = [s.truth_st(st, v) for v in vs]
                 return SV(And(ts) if isinstance(e.op, ast.And) else Or(ts), BOOL)
         # value semantics with short-circuit guards for obligations
         first = s.ev(st, e.values[0]); acc_t, acc_truth, ty = first.t, s.truth_st(st, first), first.ty
@@ -369,7 +370,7 @@ class Exec:
                 ty = v.ty if v.ty != NONE else ty
         r = SV(acc_t, ty); r.truth = acc_truth; return r
     def ev_IfExp(s, st, e):
-        c = s.truth(s.ev(st, e.test))
+        c = s.truth_st(st, s.ev(st, e.test))
         s.guard.append(c); a = s.ev(st, e.body); s.guard.pop()
         s.guard.append(Not(c)); b = s.ev(st, e.orelse); s.guard.pop()
         return SV(If(c, a.t, b.t), a.ty if a.ty != NONE else b.ty)
@@ -491,7 +492,7 @@ class Exec:
         rank = s.spec.ufuns['rank'][0]; IsT = s.spec.ufuns['IsT'][0]
         k = Int(f'k!c{next(_fresh)}')
         st2 = st.fork(); st2.env = dict(st.env, **{iv: SV(k, INT), xv: SV(Select(arr, k), xs.ty.arg)})
-        pred = s.truth(s.ev(st2, g.ifs[0]))
+        pred = s.truth_st(st2, s.ev(st2, g.ifs[0]))
         if not pred.eq(IsT(Select(arr, k))): raise Unsupported('comprehension filter is not the IsT predicate')
         elt = s.ev(st2, e.elt).t
         l = s.alloc(st, 'list'); res = fresh('arr', IA); ty = ListT(INT)
@@ -713,7 +714,7 @@ class Exec:
         try: return s.ev(st, e)
         finally: s.specmode = old_mode; st.env = saved_env
     def spec_bool(s, st, e, extra=None):
-        return s.truth(s.spec_ev(st, e, extra))
+        return s.truth_st(st, s.spec_ev(st, e, extra))
     def spec_call(s, st, e):
         n = e.func.id
         if n in ('old', 'pre'):
@@ -727,7 +728,7 @@ class Exec:
             vs = [(Const(f'{x}!q{next(_fresh)}', IA) if x.startswith('A_') else Int(f'{x}!q{next(_fresh)}')) for x in names]
             env = dict(st.env); env.update({x: SV(v, IARR if x.startswith('A_') else INT) for x, v in zip(names, vs)})
             st2 = st.fork(); st2.env = env; st2.old = st.old; st2.loop_pre = getattr(st, 'loop_pre', None); st2.old_env = getattr(st, 'old_env', None)
-            body = s.truth(s.ev(st2, lam.body))
+            body = s.truth_st(st2, s.ev(st2, lam.body))
             pats = []
             for pe in e.args[1:]:
                 if isinstance(pe, ast.Tuple): pats.append(MultiPattern(*[s.ev(st2, x).t for x in pe.elts]))
@@ -735,10 +736,10 @@ class Exec:
             if pats and not getattr(s, 'nopat', False): return SV((ForAll if n == 'forall' else Exists)(vs, body, patterns=pats), BOOL)
             return SV((ForAll if n == 'forall' else Exists)(vs, body), BOOL)
         if n == 'implies':
-            a = s.truth(s.ev(st, e.args[0]))
-            return SV(Implies(a, s.truth(s.ev(st, e.args[1]))), BOOL)
+            a = s.truth_st(st, s.ev(st, e.args[0]))
+            return SV(Implies(a, s.truth_st(st, s.ev(st, e.args[1]))), BOOL)
         if n == 'ite':
-            c = s.truth(s.ev(st, e.args[0])); a, b = s.ev(st, e.args[1]), s.ev(st, e.args[2]); return SV(If(c, a.t, b.t), a.ty)
+            c = s.truth_st(st, s.ev(st, e.args[0])); a, b = s.ev(st, e.args[1]), s.ev(st, e.args[2]); return SV(If(c, a.t, b.t), a.ty)
         if n == 'sel':      # sel(arr, i)
             a, i = s.ev(st, e.args[0]), s.ev(st, e.args[1]); return SV(Select(a.t, i.t), getattr(a, 'ety', INT))
         if n == 'upd':      # upd(arr, i, v): the array with one entry replaced
@@ -1079,7 +1080,7 @@ class Exec:
     def st_Raise(s, st, n, ctx):
         ctx.raises.append((st, n)); return; yield
     def st_Assert(s, st, n, ctx):
-        c = s.truth(s.ev(st, n.test)); s.oblige(st, f'assert@{n.lineno}', c); st.pc.append(c); yield st
+        c = s.truth_st(st, s.ev(st, n.test)); s.oblige(st, f'assert@{n.lineno}', c); st.pc.append(c); yield st
     def st_If(s, st, n, ctx):
         c = s.truth_st(st, s.ev(st, n.test))
         cs = simplify(c)
@@ -1351,7 +1352,7 @@ class Exec:
         b = h.fork()
         if N is not None: b.pc.append(c < N); bind(b, c)
         else:
-            cv_ = s.truth(s.ev(b, cond)); b.pc.append(cv_)
+            cv_ = s.truth_st(b, s.ev(b, cond)); b.pc.append(cv_)
         b.env = dict(b.env); b.env['K'] = SV(c, INT)
         if N is not None:
             cov = b.fork(); cov.pc.append(c >= 1); s.oblige(cov, f'SMOKE-loop{ordinal}-second-iteration@{n.lineno}', BoolVal(False), 'smoke')
@@ -1366,7 +1367,7 @@ class Exec:
         x = h.fork()
         if N is not None: x.pc.append(c == N); bind(x, c, entry=True)
         else:
-            cv_ = s.truth(s.ev(x, cond)); x.pc.append(Not(cv_))
+            cv_ = s.truth_st(x, s.ev(x, cond)); x.pc.append(Not(cv_))
         x.env = dict(x.env); x.env['K_loop%d' % ordinal] = SV(c, INT)
         yield from s.run(x, n.orelse, ctx)
         for bst in lctx.breaks: yield bst
